@@ -345,12 +345,12 @@ func (e *Engine) convert(g *Goroutine, v Value, from, to types.Type) Value {
 			}
 			return tb.Resize(r, w, false)
 		case !ff && tf:
-			a64 := tb.Resize(a, 64, isSigned(from))
 			op := "u2f"
 			if isSigned(from) {
 				op = "s2f"
 			}
-			return tb.Fp(fmt.Sprintf("%s%d", op, w), w, a64)
+			// convert from the operand's own width (a 64-bit to_fp is much heavier for the solver)
+			return tb.Fp(fmt.Sprintf("%s%d", op, w), w, a)
 		default:
 			if a.W == 0 {
 				break
